@@ -1,7 +1,7 @@
 """C10 - reflowing to a maximum line length preserves meaning and honours the limit (E2 paragraphs x all L)."""
 import re
 import itertools
-from mc import core, trees, leafspell
+from mc import core, trees, leafspell, inlinespell
 
 ID = 'C10'
 TECHNIQUE = ('exhaustive enumeration of all paragraphs of 1-2/3 (sub-menu 3/4) inline items out of an 11-item menu under every '
@@ -30,7 +30,7 @@ BYSTANDERS = {
 UNTOUCHED = ['atx', 'table', 'fence', 'indented', 'html']
 BOUNDS = {'quick': dict(items=3, sub_items=3, depth=2), 'thorough': dict(items=3, sub_items=4, depth=3)}
 LMAX = 120
-MARKER_WORD = re.compile(r'^(#{1,6}|=+|-+|[-+*]|>.*|\d{1,9}[.)]|\|.*|.*\|)$')
+MARKER_WORD = re.compile(r'^(#{1,6}|=+|-+|[-+*]|>.*|\d{1,9}[.)]|\|.*|.*\||`{3,}.*|~{3,}.*)$')
 
 
 def describe(tier):
@@ -68,6 +68,8 @@ def jobs(tier):
         js += [('trees', n, 2 if tier == 'quick' else 3, sh, ns, None) for sh in range(ns)]
     # every spelling of every leaf block in six contexts (thorough; quick: the two container contexts)
     js += [j + (tier,) for j in leafspell.jobs()]
+    # every spelling of every inline construct inside a paragraph that is re-flowed (meaning and idempotence under every L)
+    js += [j + (tier,) for j in inlinespell.jobs()]
     return js
 
 
@@ -137,7 +139,7 @@ def breakable_space(line_after_prefix):
 PREFIX = re.compile(r'^(?:> ?|[-+*] |\d+[.)] | +)*')
 
 
-def check_doc(r, m, bystander, case_base, by_lines=(), length_clause=True):
+def check_doc(r, m, bystander, case_base, by_lines=(), length_clause=True, kf_for=None):
     """render with every L (parse once), judge every distinct output"""
     from mistletoe import Document
     from mistletoe.markdown_renderer import MarkdownRenderer
@@ -166,11 +168,33 @@ def check_doc(r, m, bystander, case_base, by_lines=(), length_clause=True):
         r.validated += 1
         f = judge(m, w, Ls, h_ref, bystander, by_lines, length_clause)
         if f:
-            r.fail(dict(case_base, L=f.get('L', Ls[0])), f['sig'], f.get('detail', ''), kf=classify(m, f), expected=f.get('expected'), observed=f.get('observed'))
+            kf = classify(m, f) or (kf_for(f) if kf_for else None)
+            r.fail(dict(case_base, L=f.get('L', Ls[0]), kf=kf), f['sig'], f.get('detail', ''), kf=kf, expected=f.get('expected'), observed=f.get('observed'))
     r.outcome('distinct-layouts=%d' % min(len(outs), 12))
 
 
 EMPTY_ITEM = re.compile(r'^(?:> ?|(?:[-+*]|\d{1,9}[.)]) +| )*(?:[-+*]|\d{1,9}[.)]) ?$', re.M)
+
+
+def inline_finding(case):
+    """class predicates + symptoms of the two recorded findings that the inline spelling families reach"""
+    fam, md, html, label = case
+    if fam == 'escape-not' and label.get('ch') == ' ' or fam == 'break' and md.endswith('\\') and False:
+        # a word ending in a literal backslash: once the reflow puts it at the end of a line it reads as a hard line break
+        return lambda f: 'KF-C10-word-ending-in-backslash' if (f['sig'] == 'reflow-changes-meaning' and (f.get('observed') or '').count('<br />') > (f.get('expected') or '').count('<br />')) else None
+    if fam == 'code':
+        c = label['content'].replace('\n', ' ')
+        inner = c[1:-1] if (len(c) >= 2 and c[0] == ' ' and c[-1] == ' ' and c.strip(' ')) else c
+        if inner != inner.strip(' ') or '  ' in inner:
+            # a code span whose content starts/ends with a space of its own (beyond the padding) or holds a run of spaces: the
+            # reflow treats these spaces as breakable and collapses them
+            def sym(f):
+                strip = lambda h: re.sub(r'<code>(.*?)</code>', lambda m: '<code>' + m.group(1).replace(' ', '') + '</code>', h or '')
+                if f['sig'] in ('reflow-changes-meaning',) and strip(f.get('observed')) == strip(f.get('expected')):
+                    return 'KF-C10-code-span-spaces-collapsed'
+                return None
+            return sym
+    return None
 
 
 def classify(m, f):
@@ -244,6 +268,24 @@ def run_job(job):
                 r.states += 1
                 check_doc(r, m, None, dict(markdown=m, bystander=None, by_lines=[], length_clause=False), (), length_clause=False)
         r.sample(dict(space='generated trees', nodes=n), 1)
+        return r
+    if job[0] == 'inlinespell':
+        ctxs = ['paragraph-mid', 'tight list item', 'block quote', 'emphasis'] if job[3] == 'thorough' else ['block quote', 'tight list item']
+        for case in inlinespell.cases_of_job(job[:3]):
+            if (case[0] in ('brk', 'charref', 'charref-not') or any(MARKER_WORD.match(wd) for wd in case[1].split())
+                    or '\\' in case[3].get('dest', '') + case[3].get('title', '') or (case[0] == 'prefix' and case[3]['prefix'] is None)):
+                # hard/soft breaks move by design; a character reference may stand for white space; marker-like words are outside the
+                # domain; backslash escapes in destinations/titles are lost by the renderer with or without a limit (recorded under C09)
+                r.skip('inline case outside the domain of the reflow property')
+                continue
+            kf_for = inline_finding(case)
+            for ctx in ctxs:
+                x = inlinespell.in_context(case, ctx)
+                if x is None:
+                    continue
+                r.states += 1
+                check_doc(r, x[0], None, dict(markdown=x[0], bystander=None, by_lines=[], length_clause=False), (), length_clause=False, kf_for=kf_for)
+        r.sample(dict(space='inline spellings', family=job[1]), 1)
         return r
     if job[0] == 'leafspell':
         ctxs = leafspell.CONTEXTS if job[3] == 'thorough' else ['in-quote', 'in-list-item']
